@@ -12,6 +12,12 @@
 //                                         PKCS#7-padded m (ECB by hand) and that library decrypts ct back to it
 //   D id mode key iv c          helper(key, c, false) on arbitrary bytes   -> ok <out> | err
 //   S id iv1 iv2 key m          SetIV(iv1); SetIV(iv2); Sm4Cbc(key, m, true) -> ok <r1> <r2> <ct>
+//   Q id calls                  a HISTORY on reused caller buffers: calls = mode:dir:key:iv:in,...  (iv = "~": no SetIV before
+//                               this call).  One backing array each for key, IV and in is kept for the whole history and the
+//                               next call's values are written into it IN PLACE; a 16-byte iv is written into the IV array and
+//                               installed with SetIV (other lengths go through a scratch slice and must be rejected)
+//                               -> ok <s>/<out>,... <mem>   s = o|e|n (SetIV ok / error / not called); mem = 1 iff after every
+//                               call the key and in arrays are unchanged and the package IV holds the expected value
 // Observation lines:  id ok <fields> | id err | id PANIC | id HANG
 package main
 
@@ -142,6 +148,62 @@ func runCase(line string) string {
 				return "err"
 			}
 			return "ok " + hx.Hex(out)
+		case "Q":
+			type call struct {
+				mode, dir string
+				key, in   []byte
+				iv        string
+			}
+			var calls []call
+			mx := 0
+			for _, c := range strings.Split(f[2], ",") {
+				p := strings.Split(c, ":")
+				cl := call{p[0], p[1], hx.UnHex(p[2]), hx.UnHex(p[4]), p[3]}
+				calls = append(calls, cl)
+				if len(cl.in) > mx {
+					mx = len(cl.in)
+				}
+			}
+			sm4.IV = make([]byte, 16) // the package default, in an array of this history's own
+			cur := make([]byte, 16)   // the value the package IV must hold
+			keyBuf, ivBuf, inBuf := make([]byte, 16), make([]byte, 16), make([]byte, mx+8)
+			for i := range inBuf {
+				inBuf[i] = 0xC3
+			}
+			mem := true
+			var outs []string
+			for _, cl := range calls {
+				copy(keyBuf, cl.key)
+				s := "n"
+				if cl.iv != "~" {
+					v := hx.UnHex(cl.iv)
+					var err error
+					if len(v) == 16 {
+						copy(ivBuf, v) // counted up / replaced in place
+						err = sm4.SetIV(ivBuf)
+					} else {
+						err = sm4.SetIV(v)
+					}
+					if err == nil {
+						s = "o"
+						cur = append([]byte{}, v...)
+					} else {
+						s = "e"
+					}
+				}
+				copy(inBuf, cl.in)
+				in := inBuf[:len(cl.in)]
+				keepIn := append([]byte{}, inBuf...)
+				out, err := helper(cl.mode)(keyBuf, in, cl.dir == "e")
+				if err != nil {
+					outs = append(outs, s+"/err")
+				} else {
+					outs = append(outs, s+"/"+hx.Hex(out))
+				}
+				mem = mem && bytes.Equal(keyBuf, cl.key) && bytes.Equal(inBuf, keepIn) && bytes.Equal(sm4.IV, cur)
+			}
+			sm4.IV = defaultIV
+			return "ok " + strings.Join(outs, ",") + " " + b2s(mem)
 		case "S":
 			sm4.IV = defaultIV
 			r := func(e error) string {
@@ -256,6 +318,70 @@ func gen(seed uint64, tier string, o *hx.Out) {
 			c = r.Bytes(16*(1+r.Intn(4)) + r.Intn(2))
 		}
 		emit(fmt.Sprintf("D %d %s %s %s %s", next(), modes[r.Intn(4)], hx.Hex(r.Bytes(16)), iv(), hx.Hex(c)))
+	}
+	// histories of 2..4 helper calls with SetIV in between, on reused key / IV / in buffers
+	nQ := 200
+	if tier == "thorough" {
+		nQ = 3000
+	}
+	for i := 0; i < nQ; i++ {
+		key := r.Bytes(16)
+		cur := make([]byte, 16)
+		n := 2 + r.Intn(3)
+		var calls []string
+		var lastMode string
+		var lastCT []byte
+		for j := 0; j < n; j++ {
+			if j > 0 {
+				switch r.Intn(4) {
+				case 0:
+				case 1:
+					key = append([]byte{}, key...)
+					key[r.Intn(16)] ^= 1 << uint(r.Intn(8))
+				default:
+					key = r.Bytes(16)
+				}
+			}
+			ivs := "~"
+			switch r.Intn(7) {
+			case 0, 1: // a new IV
+				cur = r.Bytes(16)
+				ivs = hx.Hex(cur)
+			case 2: // counted up in place
+				cur = append([]byte{}, cur...)
+				for k := 15; k >= 0; k-- {
+					cur[k]++
+					if cur[k] != 0 {
+						break
+					}
+				}
+				ivs = hx.Hex(cur)
+			case 3: // rejected
+				ivs = hx.Hex(r.Bytes(r.Pick([]int{0, 1, 8, 15, 17, 32})))
+				if ivs == "-" {
+					ivs = "-"
+				}
+			}
+			mode := modes[r.Intn(4)]
+			dir := "e"
+			in := message(r, r.Intn(70))
+			if r.Intn(3) == 0 { // decrypt a genuine ciphertext under the values in force
+				dir = "d"
+				if lastCT != nil && lastMode == mode && r.Intn(2) == 0 {
+					in = lastCT // what an earlier call of this history may have produced (decrypts to noise or to the message)
+				}
+				ct, _ := oracle(mode, key, cur, in)
+				if dir == "d" && !(lastCT != nil && lastMode == mode && bytes.Equal(in, lastCT)) {
+					in = ct
+				}
+			}
+			if dir == "e" {
+				lastCT, _ = oracle(mode, key, cur, in)
+				lastMode = mode
+			}
+			calls = append(calls, fmt.Sprintf("%s:%s:%s:%s:%s", mode, dir, hx.Hex(key), ivs, hx.Hex(in)))
+		}
+		emit(fmt.Sprintf("Q %d %s", next(), strings.Join(calls, ",")))
 	}
 	// SetIV: lengths 0..40; a rejected SetIV leaves the previous IV in force
 	for i := 0; i < nS; i++ {
